@@ -44,10 +44,6 @@ func (A *ownAnalysis) normalisedLoops(fn *ssa.Function) []normalised {
 		if !ok || cmp.Op != token.LSS {
 			continue
 		}
-		phi, ok := cmp.X.(*ssa.Phi)
-		if !ok || phi.Block() != h || len(phi.Edges) != 2 {
-			continue
-		}
 		lenCall, ok := cmp.Y.(*ssa.Call)
 		if !ok {
 			continue
@@ -60,24 +56,43 @@ func (A *ownAnalysis) normalisedLoops(fn *ssa.Function) []normalised {
 			continue // only a slice owned by this invocation
 		}
 		body, exit := h.Succs[0], h.Succs[1]
-		// phi: 0 from outside, phi+1 from inside
 		loop := ir.ReachableFrom(body, func(from, to *ssa.BasicBlock) bool { return to == h })
 		if loop[exit] {
 			continue
 		}
-		okPhi := true
-		for i, e := range phi.Edges {
-			pred := h.Preds[i]
-			if loop[pred] {
-				inc, ok := e.(*ssa.BinOp)
-				if !ok || inc.Op != token.ADD || inc.X != ssa.Value(phi) || ir.Sym(inc.Y) != "1" {
+		// the index: either `i = phi(0, i+1); i < len` (three-clause loop) or
+		// `j = phi(-1, i); i = j+1; i < len` (range loop as go/ssa builds it)
+		var idx ssa.Value
+		okPhi := false
+		if phi, isPhi := cmp.X.(*ssa.Phi); isPhi && phi.Block() == h && len(phi.Edges) >= 2 {
+			okPhi = true
+			for i, e := range phi.Edges {
+				if loop[h.Preds[i]] {
+					inc, ok := e.(*ssa.BinOp)
+					if !ok || inc.Op != token.ADD || inc.X != ssa.Value(phi) || ir.Sym(inc.Y) != "1" {
+						okPhi = false
+					}
+				} else if ir.Sym(e) != "0" {
 					okPhi = false
 				}
-			} else if ir.Sym(e) != "0" {
-				okPhi = false
+			}
+			idx = phi
+		} else if inc, isInc := cmp.X.(*ssa.BinOp); isInc && inc.Op == token.ADD && ir.Sym(inc.Y) == "1" && inc.Block() == h {
+			if phi, isPhi := inc.X.(*ssa.Phi); isPhi && phi.Block() == h && len(phi.Edges) >= 2 {
+				okPhi = true
+				for i, e := range phi.Edges {
+					if loop[h.Preds[i]] {
+						if e != ssa.Value(inc) {
+							okPhi = false
+						}
+					} else if ir.Sym(e) != "-1" {
+						okPhi = false
+					}
+				}
+				idx = inc
 			}
 		}
-		if !okPhi {
+		if !okPhi || idx == nil {
 			continue
 		}
 		// no exit from the loop body except back to the header
@@ -95,7 +110,7 @@ func (A *ownAnalysis) normalisedLoops(fn *ssa.Function) []normalised {
 		if !closed {
 			continue
 		}
-		elem := ir.Sym(S) + "[" + ir.Sym(phi) + "]"
+		elem := ir.Sym(S) + "[" + ir.Sym(idx) + "]"
 		// which field of the element is the node pointer? find loads of elem.<f> of node type
 		fields := map[string]bool{}
 		for b := range loop {
